@@ -29,6 +29,15 @@ PTreeReg = P.make_peer(DecisionTreeRegressor)
 PDummy = P.make_peer(DummyRegressor)
 
 
+class StatefulLinReg(PLinReg):
+    """A linear model that is only able to learn the identity when it is a
+    fresh clone: every further fit on the same instance shifts its
+    predictions (warm-start / incremental learners behave like this)."""
+
+    def predict(self, X):
+        return PLinReg.predict(self, X) + 0.05 * (getattr(self, "rec_n_fit_", 1) - 1)
+
+
 def _split_seam(*arrays, **options):
     c = C.current()
     hook = getattr(c, "c18_split", None) if c is not None else None
@@ -114,8 +123,8 @@ def run(c, index, tier):
     seed = ch.subseed("w", "data")
     rs = numpy.random.RandomState(seed)
     X, kinds = _table(ch, rs, n, d)
-    model_name = ch.choice("w", ["linreg", "tree", "dummy"], "model")
-    model = {"linreg": PLinReg, "tree": lambda: PTreeReg(max_depth=3, random_state=0), "dummy": PDummy}[model_name]()
+    model_name = ch.choice("w", ["linreg", "tree", "dummy", "stateful-linreg"], "model")
+    model = {"linreg": PLinReg, "tree": lambda: PTreeReg(max_depth=3, random_state=0), "dummy": PDummy, "stateful-linreg": StatefulLinReg}[model_name]()
     draws = ch.integer("w", 1, 4, "draws")
     minmax = ch.boolean("w", 0.5, "minmax")
     mode = "adversarial" if ch.draw("r", 3, "mode") != 2 else "pinned"
@@ -173,14 +182,14 @@ def run(c, index, tier):
         mi, ma = numpy.asarray(mats[1]), numpy.asarray(mats[2])
         if numpy.any(mi > cor + 1e-12) or numpy.any(cor > ma + 1e-12):
             _viol(c, seen, "min-mean-max", (model_name,), "min <= mean <= max does not hold entrywise: min %r mean %r max %r" % (mi.tolist(), cor.tolist(), ma.tolist()))
-    if model_name == "linreg":
+    if model_name in ("linreg", "stateful-linreg"):
         # the identity can only be learnt from a training half that varies:
         # columns with repeated values (integer, two-step) may be constant there
         keep = numpy.array([k in ("normal", "constant") or (k == "collinear" and kinds[0] == "normal") for k in kinds])
         diag = numpy.where(keep, numpy.diag(cor), 1.0)
         c.probe("unit_diagonal_checked", int(keep.sum()))
         if numpy.any(numpy.abs(diag - 1.0) > 1e-9):
-            _viol(c, seen, "unit-diagonal", ("linreg",), "a linear model can learn the identity but the diagonal is %r (column kinds %r)" % (diag.tolist(), kinds))
+            _viol(c, seen, "unit-diagonal", (model_name,), "a linear model can learn the identity but the diagonal is %r (column kinds %r)" % (diag.tolist(), kinds))
     # ---- frame vs array under the same seed and the same splits
     c.ch.play_tape("r", tape)
     try:
